@@ -91,6 +91,7 @@ CONSTANTS MeshNames,     \* base meshes
           BFieldOn,      \* base meshes on whose boundary topology fields are defined (EvalBoundaryField)
           RefineOnB,     \* base meshes that may be refined for EvalBoundaryField only
           ProdGeomIds,   \* the geometry maps that are tried on the three-dimensional product meshes (instead of GeomIds)
+          ProdFieldIds,  \* the fields that are tried on the three-dimensional product meshes (instead of FieldIds)
           GmMutant       \* "none" or the name of a deliberately wrong model variant
 
 VARIABLES mesh, geom, field, stage, res
@@ -553,10 +554,13 @@ FacetType(rt) == CASE rt = "L" -> "P" [] rt = "S" -> "L" [] rt = "T" -> "L" [] r
 DegCellF == DegP * DegG + M * (DegG - 1)
 DegCellD == (IF DegP > 0 THEN DegP - 1 ELSE 0) * DegG + M * (DegG - 1)
 DegFacet == DegP * DegG + (M - 1) * (DegG - 1)
+\* (three-dimensional meshes that are refined: rules of at most three points per direction, the 32 bit integers of TLC
+\* cannot hold the denominators of the five point rules on the children)
+PtsCap == IF mesh.m = 3 /\ mesh.name \in RefineOn THEN 3 ELSE 5
 CanIntegrate(rt) == /\ N = M
-                    /\ NeedPts(rt, IF IsVec THEN DegCellD ELSE DegCellF) > 0
-                    /\ NeedPts(rt, DegCellF - DegP * DegG) > 0
-                    /\ (IsVec => NeedPts(FacetType(rt), DegFacet) > 0)
+                    /\ NeedPts(rt, IF IsVec THEN DegCellD ELSE DegCellF) \in 1..PtsCap
+                    /\ NeedPts(rt, DegCellF - DegP * DegG) \in 1..PtsCap
+                    /\ (IsVec => NeedPts(FacetType(rt), DegFacet) \in 1..PtsCap)
 AbsDetAt(el, xi) == LET d == QDet(RGrad(el, X0(el, xi))) IN IF GmMutant = "no-measure" THEN QOne ELSE IF d[1] < 0 THEN QNeg(d) ELSE d
 CellVol(el) == LET H(xi) == AbsDetAt(el, xi) IN IntRef(el.ref, NeedPts(el.ref, DegCellF - DegP * DegG), H)
 \* scalar field: int f J; vector field: int div p J
@@ -606,7 +610,7 @@ SetGeom == /\ stage = "mesh"
                  /\ geom' = GeomRec(i)
            /\ stage' = "geom" /\ UNCHANGED <<mesh, field, res>>
 SetField == /\ stage = "geom"
-            /\ \E i \in FieldIds : GmFields[i].n = geom.n /\ field' = FieldRec(i)
+            /\ \E i \in (IF Len(mesh.sp) > 1 /\ mesh.m = 3 THEN ProdFieldIds ELSE FieldIds) : GmFields[i].n = geom.n /\ field' = FieldRec(i)
             /\ stage' = "field" /\ UNCHANGED <<mesh, geom, res>>
 \* (meshes of RefineOnB \ RefineOn are refined for the boundary fields only)
 FullEval == mesh.level = 0 \/ mesh.name \in RefineOn
